@@ -303,6 +303,9 @@ def make_run(world, c, combo, use_contracts, spec_builtins):
         args = {}
         for name, spec in combo.items():
             args[name] = spec.make(I, name)
+        for name, spec in combo.items():
+            if type(spec).__name__ == 'SameAsT':
+                args[name] = args[spec.ref]
         fparams = {a.arg for a in ast.walk(f.node.args) if isinstance(a, ast.arg)}
         config['ghosts'] = {k: v for k, v in args.items() if k not in fparams}     # specification-only parameters
         memo = {}
